@@ -623,7 +623,7 @@ def run(prop, tier, replay=None):
             ups = []
             for limit in ([16, 64] if tier == "quick" else [1, 2, 3, 16, 64, 200]):
                 for n in range(0, 4 * limit + 2):
-                    for mode in ["plain", "dataerr", "gzip", "onebyte"]:
+                    for mode in ["plain", "dataerr", "gzip", "onebyte"] + (["broken", "brokendata"] if n >= 3 and prop == "C06" else []):
                         if tier == "quick" and n > 2 * limit + 3 and n % limit not in (0, 1, limit - 1):
                             continue
                         ups.append(dict(fam="upload", id=len(ups) + 1, len=n, limit=limit, mode=mode))
@@ -642,7 +642,7 @@ def run(prop, tier, replay=None):
             ulines = open(utrace).read().splitlines()
             for f in pr["failed"]:
                 ev = json.loads(ulines[f[1] - 1])
-                if f[2] not in {"C06": ("UploadComplete", "ChunkLimit"), "C08": ("ChunkLimit",), "C18": ("UploadStats",)}[prop]:
+                if f[2] not in {"C06": ("UploadComplete", "ChunkLimit", "BrokenUploadIsError"), "C08": ("ChunkLimit",), "C18": ("UploadStats",)}[prop]:
                     continue
                 sig = dict(module="Framing", formula=f[2], codec="body", mode=ev["mode"], code=None)
                 kf = C.match_finding(findings, prop, sig)
